@@ -5,6 +5,7 @@ import (
 	"go/ast"
 	"go/token"
 	"go/types"
+	"golang.org/x/tools/go/cfg"
 	"strings"
 
 	"defracheck/internal/eng"
@@ -149,24 +150,51 @@ func ruleRetryLoop(c *eng.Ctx) {
 	if fi := c.Anchor(rule, "net.(*Peer).retryReplicator"); fi != nil {
 		info := fi.Pkg.TypesInfo
 		flow := eng.NewFlow(info, fi.Decl.Body)
-		// every normal exit (other than context cancellation) passes handleCompletedReplicatorRetry
-		leak, where := flow.ExitsWithout(flow.Entry(), true, func(nd ast.Node) bool {
-			if eng.ContainsCallTo(info, nd, false, "net.(*Peer).handleCompletedReplicatorRetry") != nil {
+		// every normal exit (other than context cancellation) passes handleCompletedReplicatorRetry.
+		// The shutdown exit is a return inside a `case <-….Done():` clause. (go/cfg evaluates every comm
+		// clause of a select in the block before the branch, so the receive expression itself lies on
+		// every path through the select and must not be taken for the shutdown exit.)
+		type span struct{ lo, hi token.Pos }
+		var shutdown []span
+		ast.Inspect(fi.Decl.Body, func(m ast.Node) bool {
+			cc, ok := m.(*ast.CommClause)
+			if !ok || cc.Comm == nil {
 				return true
 			}
-			// `case <-ctx.Done(): return` is the shutdown exit
-			var ux ast.Expr
-			switch y := nd.(type) {
-			case *ast.ExprStmt:
-				ux = y.X
-			case ast.Expr:
-				ux = y
-			}
-			if cc, ok := ux.(*ast.UnaryExpr); ok && cc.Op == token.ARROW && strings.HasSuffix(eng.ExprStr(cc.X), ".Done()") {
+			isDone := false
+			ast.Inspect(cc.Comm, func(x ast.Node) bool {
+				if u, ok := x.(*ast.UnaryExpr); ok && u.Op == token.ARROW && strings.HasSuffix(eng.ExprStr(u.X), ".Done()") {
+					isDone = true
+				}
 				return true
+			})
+			if isDone && len(cc.Body) > 0 {
+				shutdown = append(shutdown, span{cc.Body[0].Pos(), cc.Body[len(cc.Body)-1].End()})
 			}
-			return false
-		}, nil)
+			return true
+		})
+		where := token.NoPos
+		leak := flow.Forward(flow.Entry(), true, eng.Walk{
+			Visit: func(pt eng.Point, nd ast.Node) eng.Action {
+				if eng.ContainsCallTo(info, nd, false, "net.(*Peer).handleCompletedReplicatorRetry") != nil {
+					return eng.Cut
+				}
+				return eng.Continue
+			},
+			OnExit: func(ret *ast.ReturnStmt, b *cfg.Block) eng.Action {
+				if ret != nil {
+					for _, sp := range shutdown {
+						if sp.lo <= ret.Pos() && ret.End() <= sp.hi {
+							return eng.Continue
+						}
+					}
+					where = ret.Pos()
+				} else {
+					where = fi.Decl.Body.End()
+				}
+				return eng.Hit
+			},
+		})
 		c.Check(!leak, rule, "retryReplicator:every-exit-completes-the-retry", fi.Decl.Pos(), "every exit reports the retry's outcome",
 			"retryReplicator returns at "+c.P.Rel(where)+" without handleCompletedReplicatorRetry: the retry record stays marked 'retrying' and the replicator is never retried again")
 		// a retry doc marker is deleted only after its push succeeded
